@@ -717,3 +717,19 @@ impl<Item, Err, O: Observer<Item, Err>> Observer<Item, Err> for EarlyReleaseSlot
   }
   fn is_finished(&self) -> bool { self.0.rc_deref().as_ref().map_or(true, |o| o.is_finished()) }
 }
+
+// ---------------------------------------------------------------- C17.K4 / C02.U3
+pub struct LazyMulti(MutRc<Option<Vec<BoxSubscription<'static>>>>);
+impl Subscription for LazyMulti {
+  fn unsubscribe(self) {
+    if self.is_closed() {
+      return;
+    }
+    if let Some(v) = self.0.rc_deref_mut().take() {
+      v.into_iter().for_each(|u| u.unsubscribe())
+    }
+  }
+  fn is_closed(&self) -> bool {
+    self.0.rc_deref().as_ref().map_or(true, |v| v.iter().all(|u| u.is_closed()))
+  }
+}
